@@ -466,6 +466,17 @@ class OrientCompare(ast.NodeTransformer):
             return ast.copy_location(parts[0], n)
         return ast.copy_location(ast.BoolOp(op=ast.And(), values=parts), n)
 
+    NEG = {ast.Lt: ast.GtE, ast.GtE: ast.Lt, ast.Gt: ast.LtE, ast.LtE: ast.Gt, ast.Eq: ast.NotEq, ast.NotEq: ast.Eq, ast.In: ast.NotIn, ast.NotIn: ast.In,
+           ast.Is: ast.IsNot, ast.IsNot: ast.Is}
+
+    def visit_UnaryOp(self, n):
+        # not (a < b)  ->  a >= b   (orders over numbers; a NaN operand is outside what the comparison is used for)
+        if isinstance(n.op, ast.Not) and isinstance(n.operand, ast.Compare) and len(n.operand.ops) == 1 and type(n.operand.ops[0]) in self.NEG:
+            c = n.operand
+            return self.visit(ast.copy_location(ast.Compare(left=c.left, ops=[self.NEG[type(c.ops[0])]()], comparators=c.comparators), n))
+        self.generic_visit(n)
+        return n
+
     def visit_BoolOp(self, n):
         self.generic_visit(n)
         vals = []
